@@ -26,6 +26,25 @@ def _pop_(fmap, _l):
     fmap[sp] = fmap[sp] + _l.length
 
 
+def _signed(x):
+    "signed view of x: the operand itself (possibly a shared register object) is left untouched"
+    from copy import copy
+
+    x = copy(x)
+    x.sf = True
+    return x
+
+
+def _unsigned(x):
+    "unsigned view of x: the operand itself (possibly a shared register object) is left untouched"
+    from copy import copy
+
+    x = copy(x)
+    x.sf = False
+    return x
+
+
+
 def __pcnpc(i_xxx):
     def pcnpc(ins, fmap):
         fmap[pc] = fmap(npc)
@@ -307,7 +326,7 @@ def i_xnor(ins, fmap):
 @__pcnpc
 def i_sll(ins, fmap):
     src1, src2, dst = ins.operands
-    src1.sf = src2.sf = False
+    src1, src2 = _unsigned(src1), _unsigned(src2)
     if dst is not g0:
         fmap[dst] = fmap(src1 << src2)
 
@@ -315,7 +334,7 @@ def i_sll(ins, fmap):
 @__pcnpc
 def i_srl(ins, fmap):
     src1, src2, dst = ins.operands
-    src1.sf = src2.sf = False
+    src1, src2 = _unsigned(src1), _unsigned(src2)
     if dst is not g0:
         fmap[dst] = fmap(src1 >> src2)
 
@@ -323,7 +342,7 @@ def i_srl(ins, fmap):
 @__pcnpc
 def i_sra(ins, fmap):
     src1, src2, dst = ins.operands
-    src1.sf = True
+    src1 = _signed(src1)
     if dst is not g0:
         fmap[dst] = fmap(src1 >> src2)
 
@@ -453,7 +472,7 @@ def i_mulscc(ins, fmap):
 @__pcnpc
 def i_umul(ins, fmap):
     src1, src2, dst = ins.operands
-    src1.sf = src2.sf = False
+    src1, src2 = _unsigned(src1), _unsigned(src2)
     _r = fmap(src1 ** src2)  # pow is used for long mul (_r is 64 bits here)
     fmap[y] = _r[32:64]
     if dst is not g0:
@@ -470,7 +489,7 @@ def i_umul(ins, fmap):
 @__pcnpc
 def i_smul(ins, fmap):
     src1, src2, dst = ins.operands
-    src1.sf = src2.sf = True
+    src1, src2 = _signed(src1), _signed(src2)
     _r = fmap(src1 ** src2)  # pow is used for long mul (_r is 64 bits here)
     fmap[y] = _r[32:64]
     if dst is not g0:
